@@ -4,6 +4,7 @@ import GMGDriver.ObjectsDrv
 import GMGDriver.OpsDrv
 import GMGDriver.TransferDrv
 import GMGDriver.TraceDrv
+import GMGDriver.GridGenDrv
 
 def main (args : List String) : IO UInt32 := do
   match args with
@@ -14,6 +15,7 @@ def main (args : List String) : IO UInt32 := do
   | ["residual"] => OpsDrv.residualMain
   | ["transfer"] => TransferDrv.main
   | ["trace"] => TraceDrv.main
+  | ["gridgen"] => GridGenDrv.main
   | _ => do
     IO.eprintln "usage: gmgdriver <grid|tridiag|lu|...>  (reads the harness line protocol on stdin)"
     return 2
